@@ -91,6 +91,12 @@ type plan struct {
 	Points []pt
 	Stmt   spec
 	A, B   layout
+	// Ties: several series of a measurement may hold a point at the same
+	// timestamp. The statement is then an aggregate (the order of raw rows of
+	// equal time is unspecified). Which of several points of the earliest
+	// (latest) time first/last choose is not specified either: for those two
+	// the layouts are held against each other only, not against the reference.
+	Ties bool
 }
 
 var timeCandidates = func() []int64 {
@@ -127,6 +133,7 @@ func genLayout(t *rapid.T, l string, cluster bool, npoints int) layout {
 
 func genPlan(t *rapid.T) interface{} {
 	p := &plan{}
+	p.Ties = rapid.IntRange(0, 3).Draw(t, "ties") == 0
 	n := rapid.IntRange(1, 28).Draw(t, "npoints")
 	type key struct {
 		m string
@@ -140,14 +147,17 @@ func genPlan(t *rapid.T) interface{} {
 			A: rapid.SampledFrom([]string{"", "x", "y"}).Draw(t, l+".a"),
 			B: rapid.SampledFrom([]string{"", "p"}).Draw(t, l+".b"),
 		}
-		if rapid.IntRange(0, 3).Draw(t, l+".tk") == 0 {
+		if p.Ties && rapid.Bool().Draw(t, l+".tie") {
+			// few distinct instants, in different shard groups: series meet
+			q.T = rapid.SampledFrom([]int64{0, 1, 3599, 3600, 9000}).Draw(t, l+".tt")
+		} else if rapid.IntRange(0, 3).Draw(t, l+".tk") == 0 {
 			q.T = int64(rapid.IntRange(0, span-1).Draw(t, l+".t"))
 		} else {
 			q.T = rapid.SampledFrom(timeCandidates).Draw(t, l+".tc")
 		}
 		// a timestamp belongs to one series per measurement: a second point at
 		// the same time is an overwrite of that series
-		if o, ok := owner[key{q.M, q.T}]; ok {
+		if o, ok := owner[key{q.M, q.T}]; ok && !p.Ties {
 			q.A, q.B = o[0], o[1]
 		} else {
 			owner[key{q.M, q.T}] = [2]string{q.A, q.B}
@@ -177,10 +187,13 @@ func genPlan(t *rapid.T) interface{} {
 	if rapid.IntRange(0, 2).Draw(t, "s.mfirst") > 0 {
 		s.M = p.Points[0].M // mostly a measurement that has data
 	}
-	if rapid.IntRange(0, 2).Draw(t, "s.raw") == 0 {
+	if rapid.IntRange(0, 2).Draw(t, "s.raw") == 0 && !p.Ties {
 		s.Field = rapid.SampledFrom([]string{"f", "i", "s", "bo"}).Draw(t, "s.rawfield")
 	} else {
 		s.Fn = rapid.SampledFrom([]string{"count", "sum", "mean", "min", "max", "first", "last", "spread", "median"}).Draw(t, "s.fn")
+		if p.Ties && rapid.Bool().Draw(t, "s.tiefn") {
+			s.Fn = rapid.SampledFrom([]string{"first", "last", "min", "max"}).Draw(t, "s.tiefnv")
+		}
 		switch s.Fn {
 		case "count", "first", "last":
 			s.Field = rapid.SampledFrom([]string{"f", "i", "s", "bo"}).Draw(t, "s.aggfield")
@@ -208,7 +221,7 @@ func genPlan(t *rapid.T) interface{} {
 		s.PredOp = rapid.SampledFrom([]string{"=", "!="}).Draw(t, "s.pop")
 		s.PredVal = rapid.SampledFrom([]string{"x", "y", "p", ""}).Draw(t, "s.pv")
 	}
-	if s.Fn != "" && rapid.IntRange(0, 2).Draw(t, "s.gt") > 0 {
+	if s.Fn != "" && rapid.IntRange(0, 2).Draw(t, "s.gt") > 0 && !(p.Ties && rapid.Bool().Draw(t, "s.tienogt")) {
 		s.GTime = rapid.SampledFrom([]int64{1, 7, 60, 1800, 3600, 5000, 7200}).Draw(t, "s.gtime")
 		if rapid.IntRange(0, 3).Draw(t, "s.goff") == 0 {
 			s.GOff = rapid.SampledFrom([]int64{1, 17, 900}).Draw(t, "s.goffv") % s.GTime
@@ -943,7 +956,11 @@ func exec(run *core.Run, pl interface{}) {
 	// the measurement and tag predicate whether or not they contribute a row
 	// (see the recorded finding); the reference evaluation is not held against
 	// those statements.
-	if !sameResult(got0, want, p.Stmt.Fill == "linear") && p.Stmt.SLimit == 0 && p.Stmt.SOffset == 0 {
+	tieChoice := p.Ties && (p.Stmt.Fn == "first" || p.Stmt.Fn == "last")
+	if tieChoice {
+		run.Probe("first-last-over-shared-timestamps")
+	}
+	if !tieChoice && !sameResult(got0, want, p.Stmt.Fill == "linear") && p.Stmt.SLimit == 0 && p.Stmt.SOffset == 0 {
 		run.Fail("result-differs-from-reference-evaluation", refSite(&p.Stmt), "%s\n first differences (engine | reference):\n%s\n engine (all layouts agree):\n%s\n reference evaluation over the raw points:\n%s", stmt, firstDiffs(got0, want), clip(got0), clip(want))
 		return
 	}
@@ -1099,7 +1116,7 @@ func TestC11(t *testing.T) {
 		RequiredProbes: []string{"statement-evaluated", "non-empty-result", "grouped-by-time", "descending", "layout-snapshot", "layout-compaction"},
 		Real:           []string{"query.Executor, coordinator.StatementExecutor, ClusterShardMapper, remote iterators over the simulated network", "query compile/select/iterators/functions/cursor/emitter", "tsdb.Store/Shard, tsm1 engine cursors and iterators, cache, TSM files, compaction"},
 		Stub:           []string{"meta.Client over generated metadata", "hinted handoff"},
-		Assumptions:    []string{"float values are multiples of 1/8 of small magnitude so that sums are exact in any order", "within a measurement a timestamp belongs to one series (the order of equal timestamps of different series is unspecified)"},
+		Assumptions:    []string{"float values are multiples of 1/8 of small magnitude so that sums are exact in any order", "in three runs of four a timestamp belongs to one series per measurement (the order of raw rows of equal time from different series is unspecified); in the fourth, series share timestamps and only aggregates are asked"},
 		Rule:           "a run = 1-28 points (2 measurements, tags a,b, fields f/i/s/bo, timestamps clustered around hour boundaries, overwrites), one statement (raw field or count/sum/mean/min/max/first/last/spread/median; optional time bounds, tag predicate, GROUP BY time(interval[,offset]) and tags, fill none/null/number/previous/linear, ORDER BY time DESC, LIMIT/OFFSET/SLIMIT/SOFFSET), evaluated by the reference evaluator and on three physical layouts; non-trivial = non-empty result",
 	})
 }
